@@ -10,6 +10,7 @@ CONSTANTS
   MaxBatch = 2
   MaxFail = 0
   MaxStops = 0
+  MaxCancel = 0
   Inflights = {2}
   Hws = {99}
   Caps = {99}
